@@ -171,6 +171,34 @@ add(TT + "remove_char_index|index|remove on &mut String with byte_index", "domin
     "the assertion just before guarantees char_index < char_count, so byte_index is the offset of an existing character",
     callee=r"reader::terminal::count_chars_bytes$", outcome="any")
 
+# ---------------------------------------------------------------- output layer behind the debugger's commands (C16.R4, C09)
+OUT = "output::Output::"
+TLSR = ("single-threaded thread-local; its only mutable borrows (set_minimal / the line tracker's write_str) are taken and released inside one closure "
+        "that calls nothing else, so no shared borrow can meet a live mutable one")
+add("output::LineTracker::is_line_start::{closure#0}|refcell|borrow(&*value)", "reviewed", TLSR)
+add(OUT + "is_minimal::{closure#0}|refcell|borrow(&*value)", "reviewed", TLSR)
+DBGONLY = ("only reached through dprint!/dprintln! and the debugger's own code, which build `Output::Debugger(..)` at the call; "
+           "the Normal variant is only built for program output (C09.R4 closes the set of functions that print as the program)")
+for f, msg in (("print_breakpoint_table", "debug_assert!(`Output::print_breakpoint_table()` called on `Output::Normal)"),
+               ("print_category", "debug_assert!(`Output::print_category()` called on `Output::Normal`)"),
+               ("reset_style", "debug_assert!(`Output::reset_style()` called on `Output::Normal`)")):
+    add(OUT + f + "|panic:debug_assert|" + msg, "reviewed", DBGONLY)
+ISMIN = r"output::Output::is_minimal$"
+add(OUT + "print_breakpoint_table|panic:debug_assert|debug_assert!(`Output::print_breakpoint_table()` should not be called if `)", "callers-dominated",
+    "the only caller (the `break list` arm) prints the table on the false side of Output::is_minimal()", root=r"debugger::Debugger::run_command$", callee=ISMIN, outcome="false")
+add(OUT + "print_char_display|panic:debug_assert|debug_assert!(`Output::print_display()` should not be called if `--minimal)", "callers-dominated",
+    "its only caller print_integer_inner reaches it on the false side of Output::is_minimal()", root=r"output::Output::print_integer_inner$", callee=ISMIN, outcome="false")
+add(OUT + "print_breakpoint_table|rangefrom|next() on &mut ops::range::RangeFrom<usize>", "reviewed",
+    "`for i in 0..` over the rows of the breakpoint list: it ends at the first row the callback has no breakpoint for, i.e. after at most 65,536 steps")
+add(OUT + "print_breakpoint_table::{closure#1}|overflow:Add|Add(len, 1)", "assumption", A1)
+WIDTHS = "the cell printer is only called with the table's column widths, constants of at least 9 (` 0x1234 `, 14 and 28 characters)"
+add(OUT + "print_breakpoint_table::{closure#1}|overflow:Sub|Sub(width, 3)", "reviewed", WIDTHS)
+add(OUT + "print_breakpoint_table::{closure#1}|overflow:Sub|Sub(width, 1)", "reviewed", WIDTHS)
+FMTW = ("fmt::Write::write_fmt over lace's own writers, whose write_str stores Ok on every path (their inner expects are discharged as infallible); "
+        "an Err could only come from a Display impl, and the values printed are integers, chars, strs and lace's own Colored/Decolored wrappers, which forward the writer's answer")
+add(OUT + "print_fmt|unwrap|expect(write_fmt(&adt:lace::output::NormalWriter:NormalWriter{minimal}, args))", "reviewed", FMTW)
+add(OUT + "print_fmt|unwrap|expect(write_fmt(&adt:lace::output::DebuggerWriter:DebuggerWriter{minimal, *category}, args))", "reviewed", FMTW)
+
 # ---------------------------------------------------------------- VM (C02 / C03)
 RT = "runtime::"
 A4 = "A4: writing to / flushing standard output does not fail (a closed pipe is an environment fault, not an instruction's semantics)"
